@@ -1,7 +1,7 @@
 (* C07 — property theorems. Nothing but statements closed by `exact <lemma>`, Print Assumptions beneath each,
    and the Examples (witness schedules: hypotheses are satisfiable, the three repaired defects stay documented). *)
 From Coq Require Import List Bool Arith NArith.
-From C07 Require Import Model ModelFiles ProofsInv ProofsIdx ProofsSafe ProofsCount ProofsFetch ProofsQuiesce ProofsFiles.
+From C07 Require Import Model ModelFiles ModelPool ProofsInv ProofsIdx ProofsSafe ProofsCount ProofsFetch ProofsQuiesce ProofsFiles ProofsPool.
 Import ListNotations.
 
 (* thm:C07_handover_no_gap, part 1 — the proxyFrac automaton. In EVERY state reachable by ANY label list (any
@@ -465,3 +465,39 @@ Example C07_suicide_at_swap_then_release :
   snd (xlast o c (lw 11 ++ [LRot] ++ repeat (LM 0) 4 ++ [LSui])) = [if skip then 290 else 547; 51]
   /\ snd (xlast o c (lw 11 ++ [LRot] ++ repeat (LM 0) 4 ++ [LSui; LM 0])) = [if skip then 256 else 512; 51].
 Proof. intros skip; destruct skip; vm_compute; split; reflexivity. Qed.
+
+(* ================================================================================================================
+   The sealed fraction's block-offset table and the pooled docBlocksWriter (ModelPool.v). For EVERY sequence of seals
+   (with sorted docs: PSeal, through a pooled writer chosen arbitrarily - any pooled one or a new one; with
+   SkipSortDocs: PAdopt) and retention steps, every sealed fraction's table (Sealed.BlocksOffsets, as it is in memory
+   NOW, after all later seals) is the one written for it; hence, the block starts of a file being distinct, a fetch
+   that reads block k of the fraction through its table gets the fraction's own block k - which is where
+   C07_fetch_published_sealed_both_modes' document lives. (The correspondence run compares the real
+   Sealed.BlocksOffsets of every installed sealed fraction with this model after every label, CaseDefs.prun, and its
+   spec checker requires them unchanged since the seal, CaseDefs.pspec.) *)
+Local Close Scope N_scope.
+Theorem C07_sealed_offsets_private :
+  forall ls g s offs,
+    In (g, s, offs) (p_tabs (pexec true pinit ls)) ->
+    view (p_heap (pexec true pinit ls)) s = offs
+    /\ (NoDup offs -> forall k, k < length offs ->
+          read_block offs (view (p_heap (pexec true pinit ls)) s) k = Some k).
+Proof. exact sealed_offsets_private. Qed.
+Print Assumptions C07_sealed_offsets_private.
+Local Open Scope N_scope.
+
+(* the seeded change C07-m12 (writeSortedDocs returns bw.BlockOffsets itself instead of slices.Clone): two seals, the
+   first fraction has two blocks, the second seal gets the same pooled writer: fraction 0's table becomes fraction
+   1's, and a read of its block 1 finds no block start there (error / wrong bytes); block 0 (offset 0) is unaffected.
+   The code as it is: private. Replayed on the real code by the fixed schedules seal-pool-3 / seal-pool-3-skipsort. *)
+Example C07_sealed_offsets_noclone_v0_refuted :
+  let ls := [PSeal 0 [0; 100] None; PSeal 1 [0; 70] (Some 0%nat)] in
+  table_of (pexec false pinit ls) 0 = Some [0; 70]
+  /\ read_block [0; 100] [0; 70] 1 = None /\ read_block [0; 100] [0; 70] 0 = Some 0%nat
+  /\ table_of (pexec true pinit ls) 0 = Some [0; 100] /\ table_of (pexec true pinit ls) 1 = Some [0; 70]
+  /\ (exists s, In (0%nat, s, [0; 100]) (p_tabs (pexec true pinit ls))) /\ NoDup [0; 100].
+Proof.
+  repeat split; try (vm_compute; reflexivity).
+  - eexists. vm_compute. right; left; reflexivity.
+  - repeat constructor; simpl; intuition discriminate.
+Qed.
